@@ -28,7 +28,7 @@ func newReduceMax() ops.Operator {
 // Init initializes the reduceMax operator.
 func (r *ReduceMax) Init(n *onnx.NodeProto) error {
 	attributes := n.GetAttribute()
-	if len(attributes) == 0 || len(attributes) > MaxReduceMaxAttributes {
+	if len(attributes) > MaxReduceMaxAttributes {
 		return ops.ErrInvalidOptionalAttributeCount(MinReduceMaxAttributes, MaxReduceMaxAttributes, len(attributes), r)
 	}
 
@@ -55,9 +55,24 @@ func (r *ReduceMax) Init(n *onnx.NodeProto) error {
 func (r *ReduceMax) Apply(inputs []tensor.Tensor) ([]tensor.Tensor, error) {
 	input := tensor.New(tensor.WithBacking(inputs[0].Data()), tensor.WithShape(inputs[0].Shape()...))
 
-	axes := make([]int, len(r.axes))
-	for i, axis := range r.axes {
-		axes[i] = ops.ConvertNegativeAxis(axis, len(input.Shape()))
+	rank := len(input.Shape())
+
+	// Without axes all dimensions are reduced.
+	reduceAxes := r.axes
+	if len(reduceAxes) == 0 {
+		reduceAxes = make([]int, rank)
+		for i := range reduceAxes {
+			reduceAxes[i] = i
+		}
+	}
+
+	axes := make([]int, len(reduceAxes))
+
+	for i, axis := range reduceAxes {
+		axes[i] = ops.ConvertNegativeAxis(axis, rank)
+		if axes[i] < 0 || axes[i] >= rank {
+			return nil, ops.ErrAxisOutOfRange(rank, rank, axis)
+		}
 	}
 
 	out, err := input.Max(axes...)
